@@ -137,10 +137,12 @@ CHECKS["C11"] = dict(
     text="wf_error (message, file name, line >= 1, 1-based column, end >= start, 6-element args) is proved as postcondition of _build_syntax_error and "
          "of every raise_* helper, expect_forced, make_syntax_error, check_version from their real bodies (z3), with token well-formedness preserved by "
          "Tokenizer.peek; get_lines never raises; every explicit raise site on the parse path is enumerated; raise_* call sites in the generated parser "
-         "pass tokens or positioned nodes. Field-by-field validation of every error raised on a mutation pool is the bounded stand-in.",
+         "pass tokens or positioned nodes; errors of a literal itself are re-raised at the token by Parser.literal_eval (E1: literal_eval's own exception, "
+         "whose coordinates are relative to the literal's text, never escapes); get_lines reads the file as it is now. Field-by-field validation of every "
+         "error raised on a mutation pool, and of file-mode errors after the same path was re-written, is the bounded stand-in.",
     design_ref="DESIGN.md 5/C11",
     note="assumed: token positions well-formed for the raw stream (contract of _tokenize), ordered ranges at known_range/starting_from call sites; "
-         "one known finding (errors from ast.literal_eval carry token-relative coordinates).",
+         "_decode_fstring_parts (escape decoding of f-string text) has an ASSUMED contract.",
     technique="E1 postconditions on error constructors (z3) + raise-site enumeration",
 )
 CHECKS["C12"] = dict(
